@@ -1,0 +1,8 @@
+//go:build !verif
+// +build !verif
+
+package streams
+
+// verifYield marks a point immediately before an atomic step of the allocator. It does
+// nothing unless the package is built with the "verif" tag (see verif_on.go).
+func verifYield(point int) {}
